@@ -11,6 +11,7 @@ package main
 import (
 	"fmt"
 	"os"
+	"strconv"
 	"strings"
 	"sync"
 	"time"
@@ -51,6 +52,7 @@ func child() {
 		}
 	}
 	var wg sync.WaitGroup
+	lim := make(chan struct{}, 12) // scenarios running at the same time in this server
 	for i, k := range kinds {
 		if a.Only >= 0 && a.Only != i {
 			continue
@@ -58,6 +60,8 @@ func child() {
 		wg.Add(1)
 		go func(i int, k string) {
 			defer wg.Done()
+			lim <- struct{}{}
+			defer func() { <-lim }()
 			sc := newScenario(run, srv, a.Index, i, k)
 			switch k {
 			case "random":
@@ -86,8 +90,11 @@ func main() {
 		return
 	}
 	run := vk.Start("C15")
-	batches := run.Pick(8, 400)
-	args := batchArgs{Random: run.Pick(6, 10), MinActs: 30, MaxActs: 120, Size: 1, Clear: 1, Age: 1, Matrix: 1, Only: -1}
+	batches := run.Pick(16, 1000)
+	if v, err := strconv.Atoi(os.Getenv("C15_CALIBRATE_BATCHES")); err == nil && v > 0 {
+		batches = v
+	}
+	args := batchArgs{Random: run.Pick(8, 24), MinActs: 30, MaxActs: 120, Size: 1, Clear: 1, Age: 1, Matrix: 1, Only: -1}
 	first := uint64(0)
 	replaying := false
 	if rep, ok := vk.ReplayInput(); ok {
@@ -101,7 +108,7 @@ func main() {
 		}
 	}
 	var wg sync.WaitGroup
-	sem := make(chan struct{}, 8)
+	sem := make(chan struct{}, 10)
 	for b := first; b < first+uint64(batches); b++ {
 		wg.Add(1)
 		sem <- struct{}{}
